@@ -17,15 +17,15 @@ Fixpoint places (d : node) : list node :=
   match d with
   | NMap _ kvs => flat_map (fun kv => fst kv :: match snd kv with
                                                 | NLeaf _ _ => [snd kv]
-                                                | c => places c
+                                                | _ => places (snd kv)
                                                 end) kvs
-  | NSeq _ els => flat_map (fun e => match e with NLeaf _ _ => [e] | c => places c end) els
+  | NSeq _ els => flat_map (fun e => match e with NLeaf _ _ => [e] | _ => places e end) els
   | _ => []
   end.
 
 (* the places that carry the name [a]: its definition and its aliases *)
 Definition uses (a : string) (d : node) : list node :=
-  filter (fun n => match c10_name n with Some b => String.eqb a b | None => false end) (places d).
+  filter (fun n => match c10_name n with Some b => String.eqb b a | None => false end) (places d).
 
 (* "every alias of that name reads x": every use of the name IS the node x
    (same object, same value) *)
@@ -45,4 +45,25 @@ Definition same_value (x y : node) : Prop :=
   match x, y with
   | NLeaf ix vx, NLeaf iy vy => py_eq vx vy = true /\ tag ix = tag iy
   | _, _ => False
+  end.
+
+(* The structural side conditions of the theorems (computable): no hash key
+   carries an anchor ... *)
+Fixpoint keys_plain (d : node) : bool :=
+  match d with
+  | NMap _ kvs =>
+      forallb (fun kv => match c10_name (fst kv) with None => true | Some _ => false end && keys_plain (snd kv)) kvs
+  | NSeq _ els => forallb keys_plain els
+  | _ => true
+  end.
+
+(* the document a replacement policy defines: every hash value / array element
+   carrying the name is the given node *)
+Fixpoint subst_named (name : string) (repl : node) (d : node) : node :=
+  let hit n := match c10_name n with Some b => String.eqb b name | None => false end in
+  match d with
+  | NMap i kvs =>
+      NMap i (map (fun kv => (fst kv, if hit (snd kv) then repl else subst_named name repl (snd kv))) kvs)
+  | NSeq i els => NSeq i (map (fun e => if hit e then repl else subst_named name repl e) els)
+  | _ => d
   end.
